@@ -129,6 +129,10 @@ func (ex *Exec) callFn(st *State, fr *Frame, x *ssa.Call, fn *ssa.Function, bind
 		names = c.Params
 	}
 	sig := fn.Signature
+	ex.pendingParamTypes = nil
+	for _, p := range fn.Params {
+		ex.pendingParamTypes = append(ex.pendingParamTypes, p.Type())
+	}
 	return ex.applyContract(st, fr, x, c, key, names, args, sig.Results(), fn.Pkg)
 }
 
@@ -247,9 +251,6 @@ func (ex *Exec) applyContract(st *State, fr *Frame, x *ssa.Call, c *Contract, ke
 				constrained = true
 			}
 		}
-		if !constrained {
-			continue
-		}
 		var inst *LetDef
 		// the instantiation is written in the contract of the function under verification (also for calls made
 		// from bodies it executes inline)
@@ -265,6 +266,9 @@ func (ex *Exec) applyContract(st *State, fr *Frame, x *ssa.Call, c *Contract, ke
 			}
 		}
 		if inst == nil {
+			if !constrained {
+				continue // a ghost that only occurs in postconditions: any fresh value is a sound instance
+			}
 			ex.reject("contract of %s constrains ghost %s in a precondition: the caller must instantiate it (callghost %s.%s = ...)", key, g[0], short, g[0])
 		}
 		genv := &SpecEnv{ex: ex, st: ex.Entry, vars: ex.ParamVals, contract: ex.C}
@@ -283,11 +287,16 @@ func (ex *Exec) applyContract(st *State, fr *Frame, x *ssa.Call, c *Contract, ke
 		site = ex.frameShort(fr) + ":" + site
 	}
 	vars := map[string]Val{}
+	vtypes := map[string]types.Type{}
 	for i, n := range names {
 		if i < len(args) {
 			vars[n] = args[i]
+			if i < len(ex.pendingParamTypes) {
+				vtypes[n] = ex.pendingParamTypes[i]
+			}
 		}
 	}
+	ex.pendingParamTypes = nil
 	var tpkg *types.Package
 	if pkg != nil {
 		tpkg = pkg.Pkg
@@ -311,7 +320,16 @@ func (ex *Exec) applyContract(st *State, fr *Frame, x *ssa.Call, c *Contract, ke
 		}
 	}
 	old := st.snapshot()
-	env := &SpecEnv{ex: ex, st: st, old: old, vars: vars, pkg: tpkg, contract: c, assuming: true}
+	for i := 0; i < results.Len(); i++ {
+		if rn := results.At(i).Name(); rn != "" && rn != "_" {
+			vtypes[rn] = results.At(i).Type()
+		}
+		if results.Len() == 1 {
+			vtypes["result"] = results.At(i).Type()
+		}
+		vtypes[fmt.Sprintf("result%d", i)] = results.At(i).Type()
+	}
+	env := &SpecEnv{ex: ex, st: st, old: old, vars: vars, vtypes: vtypes, pkg: tpkg, contract: c, assuming: true}
 	env.bindLets(c, false)
 	// preconditions
 	for i, r := range c.Requires {
